@@ -209,6 +209,37 @@ func apiClientCalls(root string) ([]clientFact, error) {
 	return out, nil
 }
 
+// leanSegs renders a route pattern ("/process/:name") or a client URL format ("/process/%s") as a
+// list of PC.Api.Seg; the query string is dropped; the flag tells whether it ended in a slash.
+func leanSegs(pat string) (string, bool) {
+	if i := strings.Index(pat, "?"); i >= 0 {
+		pat = pat[:i]
+	}
+	parts := strings.Split(pat, "/")
+	if len(parts) > 0 && parts[0] == "" {
+		parts = parts[1:]
+	}
+	trailing := false
+	if len(parts) > 0 && parts[len(parts)-1] == "" {
+		trailing = len(parts) > 1 || pat == "/"
+		parts = parts[:len(parts)-1]
+	}
+	out := []string{}
+	n := 0
+	for _, x := range parts {
+		switch {
+		case strings.HasPrefix(x, ":") || strings.HasPrefix(x, "*"):
+			out = append(out, fmt.Sprintf(".par %q", x[1:]))
+		case x == "%s" || x == "%d" || x == "%v":
+			n++
+			out = append(out, fmt.Sprintf(".par \"p%d\"", n))
+		default:
+			out = append(out, fmt.Sprintf(".lit %q", x))
+		}
+	}
+	return "[" + strings.Join(out, ", ") + "]", trailing
+}
+
 func leanBool(b bool) string {
 	if b {
 		return "true"
@@ -219,23 +250,24 @@ func leanBool(b bool) string {
 // writeApiFacts emits Gen/Api.lean.
 func writeApiFacts(root, gen string, status map[string]string, facts map[string]any) {
 	var b strings.Builder
-	b.WriteString("-- GENERATED by /verif/extract from /repo's current source. Do not edit.\nnamespace PC.Gen.Api\n\n")
+	b.WriteString("-- GENERATED by /verif/extract from /repo's current source. Do not edit.\nimport PC.Model.ApiTypes\nnamespace PC.Gen.Api\nopen PC.Api\n\n")
 	routes, e1 := apiRoutes(root)
 	handlers, e2 := apiHandlers(root)
 	calls, e3 := apiClientCalls(root)
 	if e1 != nil || e2 != nil || e3 != nil {
 		status["Api.facts"] = "ERROR"
-		b.WriteString("def routes : List (String × String × String) := []\n")
+		b.WriteString("def routes : List (String × List Seg × String) := []\n")
 		b.WriteString("def handlers : List (String × List String × List String × Bool × String × List String) := []\n")
-		b.WriteString("def clientCalls : List (String × String × String) := []\n")
+		b.WriteString("def clientCalls : List (String × String × List Seg × Bool) := []\n")
 	} else {
 		status["Api.routes"] = "ok"
 		status["Api.handlers"] = "ok"
 		status["Api.clientCalls"] = "ok"
 		b.WriteString("/-- (verb, path pattern, handler) of every route registered in src/api/routes.go, in source order -/\n")
-		b.WriteString("def routes : List (String × String × String) := [\n")
+		b.WriteString("def routes : List (String × List Seg × String) := [\n")
 		for i, r := range routes {
-			fmt.Fprintf(&b, "  (%q, %q, %q)", r.Verb, r.Path, r.Handler)
+			sg, _ := leanSegs(r.Path)
+			fmt.Fprintf(&b, "  (%q, %s, %q)", r.Verb, sg, r.Handler)
 			if i < len(routes)-1 {
 				b.WriteString(",")
 			}
@@ -252,10 +284,11 @@ func writeApiFacts(root, gen string, status map[string]string, facts map[string]
 			b.WriteString("\n")
 		}
 		b.WriteString("]\n\n")
-		b.WriteString("/-- per client function of src/client/*.go that builds a URL: (function, verb, URL format after the host) -/\n")
-		b.WriteString("def clientCalls : List (String × String × String) := [\n")
+		b.WriteString("/-- per client function of src/client/*.go that builds a URL: (function, verb, path pattern of the URL format\n    after the host with the query dropped, whether the path ends in a slash) -/\n")
+		b.WriteString("def clientCalls : List (String × String × List Seg × Bool) := [\n")
 		for i, c := range calls {
-			fmt.Fprintf(&b, "  (%q, %q, %q)", c.Func, c.Verb, c.Path)
+			sg, tr := leanSegs(c.Path)
+			fmt.Fprintf(&b, "  (%q, %q, %s, %s)", c.Func, c.Verb, sg, leanBool(tr))
 			if i < len(calls)-1 {
 				b.WriteString(",")
 			}
